@@ -26,8 +26,8 @@ run_demo() {
     dir=$(grep -l "^package $pkg\$" -r "$W" --include=*.go | grep -v _test.go | head -1 | xargs dirname)
     hint=$(grep -m1 -o 'package directory: [^ ]*' "$S/NOTES.md" 2>/dev/null | awk '{print $3}')
     cp "$t" "$dir/zz_seed_demo_test.go"
-    name=$(grep -o 'func Test[A-Za-z0-9_]*' "$t" | head -1 | awk '{print $2}')
-    (cd "$dir" && go test -vet=off -count=1 -run "^$name\$" . >"$W.demo.log" 2>&1); rc=$?
+    name=$(grep -o 'func Test[A-Za-z0-9_]*' "$t" | awk '{print $2}' | paste -sd'|')
+    (cd "$dir" && go test -vet=off -count=1 -run "^($name)\$" . >"$W.demo.log" 2>&1); rc=$?
     rm -f "$dir/zz_seed_demo_test.go"
   fi
   tail -3 "$W.demo.log"; echo "demo exit=$rc"; return $rc
